@@ -330,7 +330,11 @@ class StateMachine(object):  # pylint: disable=too-many-public-methods
     def action(self, event):
         # (int) -> None
         """Execute the action triggered by event"""
-        action = self.transition_table[(event, self.current_state)]
+        action = self.transition_table.get((event, self.current_state))
+        if action is None:
+            # PS3.8 leaves this state/event combination undefined (e.g. a primitive issued by the
+            # local user on an association that is already over): ignore it
+            return
         self.current_state = action()
 
     def ae_1(self):
